@@ -25,7 +25,8 @@ VERIF = os.path.dirname(os.path.dirname(os.path.abspath(__file__)))
 REPLAYS = os.environ.get('VERIF_REPLAY_DIR') or os.path.join(VERIF, 'replays')
 EVIDENCE = os.environ.get('VERIF_EVIDENCE_DIR') or os.path.join(VERIF, 'evidence')     # bin/seedtest points these elsewhere
 KNOWN = os.path.join(VERIF, 'known_findings.jsonl')
-RUN_WATCHDOG_S = 120
+RUN_WATCHDOG_S = 120     # hard: the worker dumps its stack and dies (a hang inside C code)
+RUN_SOFT_S = 60           # soft: SIGALRM raises RunTimeout inside the run, which is then reported with its plan
 
 
 def load_prop(prop):
@@ -74,25 +75,54 @@ def known_for(known, sig):
 # ---------------------------------------------------------------------------
 # worker side
 
+class RunTimeout(BaseException):
+    """One simulated run used more wall time than RUN_SOFT_S: reported as a
+    harness failure with its plan (never as a pass, never as a violation)."""
+
+
+def _on_alarm(signum, frame):
+    raise RunTimeout('run exceeded %ds of wall time' % RUN_SOFT_S)
+
+
+_IN_FLIGHT = None     # shared array: the run index each worker is busy with (+1), for the post-mortem of a dead pool
+
+
 def _worker_init():
     W.ensure_repo_on_path()
     signal.signal(signal.SIGINT, signal.SIG_IGN)
+    signal.signal(signal.SIGALRM, _on_alarm)
+
+
+def _slot():
+    ident = getattr(multiprocessing.current_process(), '_identity', None) or (0,)
+    return (ident[0] - 1) % len(_IN_FLIGHT) if _IN_FLIGHT is not None and ident[0] else None
 
 
 def run_one(prop, verif_seed, index, tier):
     mod = load_prop(prop)
     rs = W.run_seed(verif_seed, prop, index)
+    slot = _slot()
+    if slot is not None:
+        _IN_FLIGHT[slot] = index + 1
     faulthandler.dump_traceback_later(RUN_WATCHDOG_S, exit=True)
+    armed = signal.getsignal(signal.SIGALRM) is _on_alarm
+    if armed:
+        signal.alarm(RUN_SOFT_S)
+    plan = None
     try:
-        plan = mod.generate(rs, tier)
         try:
+            plan = mod.generate(rs, tier)
             res = mod.execute(plan)
         except BaseException as e:  # harness exception: classified apart from VIOLATION
             res = {'status': 'harness', 'violations': [], 'stats': {}, 'probes': {}, 'fingerprint': '', 'digest': '',
                    'nontrivial': False, 'sim_seconds': 0.0,
                    'note': 'harness exception: %s\n%s' % (repr(e), traceback.format_exc()[-3000:])}
     finally:
+        if armed:
+            signal.alarm(0)
         faulthandler.cancel_dump_traceback_later()
+        if slot is not None:
+            _IN_FLIGHT[slot] = 0
     res['index'] = index
     res['run_seed'] = rs
     if res['status'] in ('violation', 'harness'):
@@ -223,6 +253,8 @@ def batch(prop, tier, verif_seed, budget_s, workers, max_runs=None, chunk=None, 
     hard_cap = budget_s * 3 + 120
     pending = set()
     harness_fail = None
+    global _IN_FLIGHT
+    _IN_FLIGHT = ctx.Array('q', max(64, workers * 4), lock=False)
     with ProcessPoolExecutor(max_workers=workers, mp_context=ctx, initializer=_worker_init) as ex:
         try:
             while True:
@@ -243,7 +275,8 @@ def batch(prop, tier, verif_seed, budget_s, workers, max_runs=None, chunk=None, 
                     harness_fail = 'wall cap exceeded'
                     break
         except Exception as e:  # BrokenProcessPool etc.
-            harness_fail = 'worker pool failure: %r' % (e,)
+            harness_fail = 'worker pool failure: %r; run indices in flight: %s (bin/check %s --tier %s --seed %s --only-index N reruns one)' % (
+                e, sorted(int(x) - 1 for x in _IN_FLIGHT if x), prop, tier, verif_seed)
         if harness_fail:
             for f in pending:
                 f.cancel()
